@@ -111,6 +111,14 @@ CLAIMED['C11'] = dict(
     technique='bounded stand-in only: real send coroutines against a recording transport, session loss at every cut, independent intended-table oracle (contract-based proof not built yet)',
 )
 
+CLAIMED['C14'] = dict(
+    category='proof',
+    text='TWO of the four clauses of the statement. (1) Chunking independence: contract on the line reassembly of the real Processes._async_reader_callback, with text as a view of code points into one array S = kept buffer ++ chunk: every command queued is a complete line of S (starts where the previous line ended, is followed by the first newline after its start, holds no newline), and the buffer stored for the next read is exactly the newline-free text after the LAST newline of S (loop invariant + variant; class invariant "the kept buffer holds no newline" required and re-established). The induction over reads then gives independence from the chunking. (2) Selectors: contract on the real match_neighbor: selected iff EVERY term is the wildcard or matches, and each term is searched with the whole-word pattern (^|\\s)<escaped term>($|\\s|,). Discharged by z3. Bounded complement: the real callback over a real os.pipe() under cuts at and around every newline and EVERY chunking of a short stream; every 1-3 term selector x 5 neighbors (IPv6 address that is a textual prefix of another) against a reference matcher.',
+    note='NOT COVERED: "exactly one terminal done/error reply per command, in command order" and "an unknown or failing command changes no RIB" -- the API dispatcher, the command callbacks and the ASYNC scheduler have no obligations and no bounded check yet (seeded change C14-2, replies out of order, is missed). extract_neighbors is bounded only. The oversize-line memory guard is chunking-dependent by construction and excluded.',
+    ref='DESIGN.md §6 C14, §11.10',
+    technique=PYVC + '; text as code-point views (absolute-index quantifiers); bounded real-pipe chunkings and selector enumeration',
+)
+
 NOT_YET = 'check not built yet in this session (planned in DESIGN.md §6); not claimed until its obligations are discharged'
 NA = {}
 
